@@ -94,6 +94,62 @@ func (fi *FuncInfo) ensureFacts() {
 			fi.edgeFacts[[2]int{b.Index, b.Succs[k].Index}] = fs
 		}
 	}
+	fi.runFactsIteration()
+	// second phase: a branch on a boolean that was computed earlier (ok := a && b; if ok {...};
+	// a switch case a && b; a result variable) knows, on its true edge, what every way of the
+	// value being true implies - computed from the facts of the first phase
+	extra := false
+	for _, b := range fn.Blocks {
+		if len(b.Instrs) == 0 || b == fn.Recover {
+			continue
+		}
+		iff, ok := b.Instrs[len(b.Instrs)-1].(*ssa.If)
+		if !ok || len(b.Succs) != 2 || b.Succs[0] == b.Succs[1] {
+			continue
+		}
+		cond := iff.Cond
+		neg := false
+		if u, ok := cond.(*ssa.UnOp); ok && u.Op == token.NOT {
+			cond, neg = u.X, true
+		}
+		ph, isPhi := cond.(*ssa.Phi)
+		if !isPhi {
+			continue
+		}
+		for k := 0; k < 2; k++ {
+			wantTrue := (k == 0) != neg
+			var fs []Fact
+			var possible bool
+			if wantTrue {
+				fs, possible = fi.trueImplies(ph, 0)
+			} else {
+				fs, possible = fi.falseImplies(ph, 0)
+			}
+			if !possible || len(fs) == 0 {
+				continue
+			}
+			key := [2]int{b.Index, b.Succs[k].Index}
+			have := map[string]bool{}
+			for _, f := range fi.edgeFacts[key] {
+				have[f.Key()] = true
+			}
+			for _, f := range fs {
+				if !have[f.Key()] {
+					fi.edgeFacts[key] = append(fi.edgeFacts[key], f)
+					extra = true
+				}
+			}
+		}
+	}
+	if extra {
+		fi.factsIn = map[*ssa.BasicBlock]FactSet{}
+		fi.runFactsIteration()
+	}
+}
+
+// runFactsIteration computes factsIn from edgeFacts (descending must-dataflow).
+func (fi *FuncInfo) runFactsIteration() {
+	fn := fi.Fn
 	top := map[*ssa.BasicBlock]bool{}
 	for _, b := range fn.Blocks {
 		top[b] = true
@@ -377,11 +433,19 @@ func (fi *FuncInfo) trueImplies(v ssa.Value, depth int) (out []Fact, possible bo
 	case *ssa.Phi:
 		var acc map[string]Fact
 		first := true
+		var principals []Fact
+		nContrib := 0
 		for i, e := range x.Edges {
 			pred := x.Block().Preds[i]
 			sub, ok := fi.trueImplies(e, depth+1)
 			if !ok {
 				continue
+			}
+			nContrib++
+			if ef := fi.edgeFacts[[2]int{pred.Index, x.Block().Index}]; len(ef) > 0 {
+				principals = append(principals, ef[0])
+			} else if len(sub) > 0 {
+				principals = append(principals, sub[0])
 			}
 			cand := map[string]Fact{}
 			for k, f := range fi.factsIn[pred] {
@@ -414,6 +478,10 @@ func (fi *FuncInfo) trueImplies(v ssa.Value, depth int) (out []Fact, possible bo
 		for _, k := range keys {
 			out = append(out, acc[k])
 		}
+		// exactly two ways: the disjunction of what distinguishes them (a && b is false iff !a or !b)
+		if nContrib == 2 && len(principals) == 2 && principals[0].Key() != principals[1].Key() {
+			out = append(out, orFact(principals[0], principals[1]))
+		}
 		return out, true
 	case *ssa.UnOp:
 		if x.Op == token.NOT {
@@ -426,6 +494,78 @@ func (fi *FuncInfo) trueImplies(v ssa.Value, depth int) (out []Fact, possible bo
 	out = append(out, f)
 	out = append(out, fi.expandFact(f, depth)...)
 	return out, true
+}
+
+// falseImplies is the mirror image of trueImplies: facts that hold whenever v is false.
+func (fi *FuncInfo) falseImplies(v ssa.Value, depth int) (out []Fact, possible bool) {
+	if depth > 6 {
+		return nil, true
+	}
+	t := fi.Term(v)
+	if c, ok := t.IsConst(); ok {
+		return nil, c == "false"
+	}
+	switch x := v.(type) {
+	case *ssa.Phi:
+		var acc map[string]Fact
+		first := true
+		var principals []Fact
+		nContrib := 0
+		for i, e := range x.Edges {
+			pred := x.Block().Preds[i]
+			sub, ok := fi.falseImplies(e, depth+1)
+			if !ok {
+				continue
+			}
+			nContrib++
+			if ef := fi.edgeFacts[[2]int{pred.Index, x.Block().Index}]; len(ef) > 0 {
+				principals = append(principals, ef[0])
+			} else if len(sub) > 0 {
+				principals = append(principals, sub[0])
+			}
+			cand := map[string]Fact{}
+			for k, f := range fi.factsIn[pred] {
+				cand[k] = f
+			}
+			for _, f := range fi.edgeFacts[[2]int{pred.Index, x.Block().Index}] {
+				cand[f.Key()] = f
+			}
+			for _, f := range sub {
+				cand[f.Key()] = f
+			}
+			if first {
+				acc, first = cand, false
+			} else {
+				for k := range acc {
+					if _, ok := cand[k]; !ok {
+						delete(acc, k)
+					}
+				}
+			}
+		}
+		if first {
+			return nil, false
+		}
+		var keys []string
+		for k := range acc {
+			keys = append(keys, k)
+		}
+		sort.Strings(keys)
+		for _, k := range keys {
+			out = append(out, acc[k])
+		}
+		// exactly two ways: the disjunction of what distinguishes them (a && b is false iff !a or !b)
+		if nContrib == 2 && len(principals) == 2 && principals[0].Key() != principals[1].Key() {
+			out = append(out, orFact(principals[0], principals[1]))
+		}
+		return out, true
+	case *ssa.UnOp:
+		if x.Op == token.NOT {
+			f := mkFact(fi.Term(x.X), false)
+			return []Fact{f}, true
+		}
+	}
+	return []Fact{mkFact(t, true)}, true
 }
 
 // exportFacts rewrites the facts at a return site into the callee's interface
@@ -599,6 +739,231 @@ func callOfResult(x *Term) (*Term, int) {
 		}
 	}
 	return nil, 0
+}
+
+// valueSummary returns, for a straight-line repository function with one
+// result (a helper that names an expression: an offset computation, a guarded
+// read of a field, a predicate), that result as a term over the function's
+// parameters; nil if the function is not of that form. Calls to such helpers
+// are replaced by the instantiated term in the caller (term-level inlining),
+// so extracting an expression into a helper does not change any term.
+func (p *Program) valueSummary(fn *ssa.Function) *Term {
+	if p.valueSums == nil {
+		p.valueSums = map[*ssa.Function]*Term{}
+		p.valueSumBusy = map[*ssa.Function]bool{}
+	}
+	if t, ok := p.valueSums[fn]; ok {
+		return t
+	}
+	if p.valueSumBusy[fn] {
+		return nil
+	}
+	p.valueSumBusy[fn] = true
+	defer delete(p.valueSumBusy, fn)
+	t := p.buildValueSummary(fn)
+	p.valueSums[fn] = t
+	return t
+}
+
+func (p *Program) buildValueSummary(fn *ssa.Function) *Term {
+	if !IsRepoFunc(fn) || fn.Signature.Results().Len() != 1 || len(fn.Blocks) == 0 {
+		return nil
+	}
+	var body *ssa.BasicBlock
+	for _, b := range fn.Blocks {
+		if b == fn.Recover {
+			continue
+		}
+		if body != nil {
+			return nil
+		}
+		body = b
+	}
+	if body == nil || len(body.Instrs) == 0 {
+		return nil
+	}
+	ret, ok := body.Instrs[len(body.Instrs)-1].(*ssa.Return)
+	if !ok || len(ret.Results) != 1 {
+		return nil
+	}
+	fi := p.Info(fn)
+	for _, in := range body.Instrs {
+		switch x := in.(type) {
+		case *ssa.Return, *ssa.FieldAddr, *ssa.IndexAddr, *ssa.UnOp, *ssa.BinOp, *ssa.Convert, *ssa.ChangeType, *ssa.Extract,
+			*ssa.Field, *ssa.Index, *ssa.Lookup, *ssa.DebugRef, *ssa.MakeInterface, *ssa.ChangeInterface:
+		case *ssa.Call:
+			if _, _, isLock := LockOp(&x.Call); isLock {
+				continue
+			}
+			if bi, ok := x.Call.Value.(*ssa.Builtin); ok && (bi.Name() == "len" || bi.Name() == "cap") {
+				continue
+			}
+			if !fi.isPureCall(&x.Call) {
+				// a clock read (no arguments, no write, lock, blocking or file effect) is allowed: its term is
+				// re-identified per call site when the summary is instantiated
+				sc := x.Call.StaticCallee()
+				if sc == nil || len(x.Call.Args) != 0 || !IsRepoFunc(sc) {
+					return nil
+				}
+				e := fi.P.effects[sc]
+				if e == nil || len(e.Writes)+len(e.Locks)+len(e.Blocks)+len(e.FileOps)+len(e.Spawns) != 0 {
+					return nil
+				}
+			}
+		case *ssa.Alloc:
+		case *ssa.Store:
+			// the spill of a parameter into its local (struct parameters whose fields are addressed), or the
+			// initialisation of a field of a local struct that is the function's result (a struct literal)
+			if _, isAl := x.Addr.(*ssa.Alloc); isAl {
+				if _, isParam := x.Val.(*ssa.Parameter); isParam {
+					continue
+				}
+			}
+			if fa, isFA := x.Addr.(*ssa.FieldAddr); isFA {
+				if al, isAl := fa.X.(*ssa.Alloc); isAl && resultAlloc(ret) == al {
+					continue
+				}
+			}
+			return nil
+		default:
+			return nil
+		}
+	}
+	rt := fi.Term(ret.Results[0])
+	if al := resultAlloc(ret); al != nil {
+		// a struct literal: the value is the record of its initialised fields
+		st, ok := al.Type().(*types.Pointer).Elem().Underlying().(*types.Struct)
+		if !ok || rt.K != KLoad {
+			return nil
+		}
+		var names []string
+		var vals []*Term
+		for i := 0; i < st.NumFields(); i++ {
+			ft := fi.ResolveLocalField(rt, st.Field(i).Name(), ret)
+			if ft == nil || ft.K == KLoad && ft.A[0].K == KFA && ft.A[0].A[0].K == KAlloc {
+				continue // not initialised: zero value
+			}
+			names = append(names, st.Field(i).Name())
+			vals = append(vals, ft)
+		}
+		rt = mk(KStruct, strings.Join(names, ","), ret.Results[0].Type(), nil, vals...)
+	}
+	// loads made after a lock operation of the callee keep a version that can never equal a caller version
+	rt = rt.Subst(func(t *Term) *Term {
+		if t.K == KLoad && t.V != "" && !strings.HasPrefix(t.V, "@") && rootIsParam(t.A[0]) {
+			return &Term{K: KLoad, A: t.A, V: "@" + FuncName(fn) + ":" + t.V, Typ: t.Typ, Val: t.Val}
+		}
+		return nil
+	})
+	// argument-free clock reads are exportable: mark them so that exportable() accepts and instantiation renames them
+	rt = rt.Subst(func(t *Term) *Term {
+		if t.K == KCall && len(t.A) == 0 && !strings.HasPrefix(t.S, "builtin.") {
+			return &Term{K: KClock, S: t.S, Typ: t.Typ, Val: t.Val}
+		}
+		return nil
+	})
+	if !exportable(rt) {
+		return nil
+	}
+	return rt
+}
+
+// resultAlloc: the function returns *al for a local struct al.
+func resultAlloc(ret *ssa.Return) *ssa.Alloc {
+	if len(ret.Results) != 1 {
+		return nil
+	}
+	if ld, ok := ret.Results[0].(*ssa.UnOp); ok && ld.Op == token.MUL {
+		if al, ok := ld.X.(*ssa.Alloc); ok {
+			if _, isSt := al.Type().(*types.Pointer).Elem().Underlying().(*types.Struct); isSt {
+				return al
+			}
+		}
+	}
+	return nil
+}
+
+// instantiateTerm maps a summary term (over $pN) into the caller at call site call.
+func (fi *FuncInfo) instantiateTerm(st *Term, call *ssa.Call) *Term {
+	args := call.Call.Args
+	bad := false
+	var sub func(t *Term) *Term
+	sub = func(t *Term) *Term {
+		switch t.K {
+		case KParam:
+			i := atoi(t.S)
+			if i < len(args) {
+				return fi.Term(args[i])
+			}
+			bad = true
+			return t
+		case KRet:
+			bad = true
+			return t
+		case KClock:
+			// one reading per execution of the call site
+			return &Term{K: KCall, S: t.S + "@" + fi.ID(call), Typ: t.Typ, Val: t.Val}
+		case KLoad:
+			if strings.HasPrefix(t.V, "@") {
+				addr := t.A[0].Subst(sub)
+				return &Term{K: KLoad, A: []*Term{addr}, V: t.V, Typ: t.Typ, Val: t.Val}
+			}
+			addr := t.A[0].Subst(sub)
+			cls, ok := fi.classOfAddrTerm(addr)
+			if !ok {
+				bad = true
+				return t
+			}
+			return &Term{K: KLoad, A: []*Term{addr}, V: fi.VersionAt(call, cls), Typ: t.Typ, Val: t.Val}
+		case KField:
+			x := t.A[0].Subst(sub)
+			return fi.fieldOf(x, t.S, t.Typ, nil)
+		case KRef:
+			x := t.A[0].Subst(sub)
+			return mk(KRef, "", t.Typ, nil, x)
+		}
+		return nil
+	}
+	nt := st.Subst(sub)
+	if bad {
+		return nil
+	}
+	return fi.Renorm(nt)
+}
+
+// InstantiateTerm maps a term of a callee (over its parameters) into the caller at call site call; nil if impossible.
+func (fi *FuncInfo) InstantiateTerm(t *Term, call *ssa.Call) *Term {
+	if t == nil {
+		return nil
+	}
+	return fi.instantiateTerm(t, call)
+}
+
+// Transparent reports whether fn is a straight-line helper: one basic block, no lock operation, no defer, no go.
+// Such a function only names a statement sequence, and rules that enumerate the operations of a function
+// attribute its operations to its callers.
+func (p *Program) Transparent(fn *ssa.Function) bool {
+	if !IsRepoFunc(fn) || len(fn.Blocks) == 0 {
+		return false
+	}
+	n := 0
+	for _, b := range fn.Blocks {
+		if b == fn.Recover {
+			continue
+		}
+		n++
+		for _, in := range b.Instrs {
+			switch x := in.(type) {
+			case *ssa.Defer, *ssa.Go, *ssa.RunDefers, *ssa.Select, *ssa.Send:
+				return false
+			case *ssa.Call:
+				if _, _, isLock := LockOp(&x.Call); isLock {
+					return false
+				}
+			}
+		}
+	}
+	return n == 1
 }
 
 // instantiate maps a summary fact into the caller at call site call.
